@@ -516,6 +516,13 @@ fn jobs(tier: &str) -> Vec<Job> {
                     }
                 }
             }
+            // (2'') a start the checker accepts but the bounds reject: every call still comes back on time
+            if let Some((spec, start)) = crate::props_paths::out_of_bounds_start(&b) {
+                let mut sc = b.scenario(b.world_free(), b.params(pk, if pk == Pk::Prm { 1.6 } else { 1.0 }, 2.5, 0.0), &format!("C06/workcap/{kit}/start-outside-bounds/step1/{}", pk.name()));
+                sc.spec = spec;
+                sc.start = start;
+                out.push(Job { sc, part: 2, letters: b.sub3.clone(), depth: 2 });
+            }
             // (3') a goal sampler that can never deliver (fails at every call from its k-th on): the call
             // must come back with an error, not keep asking
             if pk != Pk::Prm {
